@@ -4,7 +4,12 @@ package c24
 
 import (
 	"fmt"
+	"google.golang.org/protobuf/reflect/protodesc"
+	"google.golang.org/protobuf/types/descriptorpb"
+	"google.golang.org/protobuf/types/dynamicpb"
+	"google.golang.org/protobuf/types/known/anypb"
 	"math"
+	"strings"
 	"sync/atomic"
 
 	"google.golang.org/protobuf/encoding/prototext"
@@ -206,7 +211,7 @@ func runeFamily(c *core.Ctx) {
 }
 
 func run(c *core.Ctx) {
-	c.Rule = "messages = all slot lists of length <=k over the slot alphabet of each type (groups, extensions, maps, oneofs, unknown fields, NaN/-0/inf/denormal floats, non-ASCII and control-character strings, arbitrary bytes); each is written with 5 option sets (Multiline, Indent, EmitASCII) and parsed back; the result must be proto.Equal to the original with unknown fields removed recursively and have the same canonical snapshot (float bits identical, NaNs identified). Floats: every float32 bit pattern (thorough: all 2^32; quick: stride 61 plus a full structured exponent x mantissa set) and all doubles with <=2 set / cleared mantissa bits per exponent go through the text encoder and decoder and must come back bit-identical"
+	c.Rule = "messages = all slot lists of length <=k over the slot alphabet of each type (groups, extensions, maps, oneofs, unknown fields, NaN/-0/inf/denormal floats, non-ASCII and control-character strings, arbitrary bytes); each is written with 5 option sets (Multiline, Indent, EmitASCII) and parsed back; the result must be proto.Equal to the original with unknown fields removed recursively and have the same canonical snapshot (float bits identical, NaNs identified). Floats: every float32 bit pattern (thorough: all 2^32; quick: stride 61 plus a full structured exponent x mantissa set) and all doubles with <=2 set / cleared mantissa bits per exponent go through the text encoder and decoder and must come back bit-identical. Any with a caller-supplied Resolver: an Any whose payload type and three extensions (int32, repeated string, message) exist only in a private protoregistry.Types (dynamic types, descriptor not in the global registry): every payload of <=2 setters x 5 option sets round-trips to an equal payload"
 	c.Exhaustive = true
 	floatSweep(c)
 	runeFamily(c)
@@ -276,7 +281,92 @@ func run(c *core.Ctx) {
 			c.Sample(map[string]any{"type": p.name, "slots": univ.Names([]*univ.Slot{alpha[len(alpha)/3], alpha[len(alpha)/2]})})
 		}
 	}
+	anyWithPrivateResolver(c)
 	c.Bounds["plans"] = planOut
 	c.Assume("EmitUnknown output is by design not parseable; it is covered by C25's no-panic clause only")
 	var _ protoreflect.Message
+}
+
+// anyWithPrivateResolver: an Any whose payload type and extensions exist only
+// in the caller's Resolver (dynamic types over a descriptor that is not in the
+// global registry): every payload of <=2 slots must survive the text round
+// trip through MarshalOptions.Resolver / UnmarshalOptions.Resolver.
+func anyWithPrivateResolver(c *core.Ctx) {
+	fdp := univ.SchemaFile("verif/c24/private.proto", "verif.c24.private", univ.Proto2, []univ.Shape{
+		{Name: "optional int32", Type: descriptorpb.FieldDescriptorProto_TYPE_INT32, Label: descriptorpb.FieldDescriptorProto_LABEL_OPTIONAL, Ext: true},
+		{Name: "repeated string", Type: descriptorpb.FieldDescriptorProto_TYPE_STRING, Label: descriptorpb.FieldDescriptorProto_LABEL_REPEATED, Ext: true},
+		{Name: "optional message", Type: descriptorpb.FieldDescriptorProto_TYPE_MESSAGE, Label: descriptorpb.FieldDescriptorProto_LABEL_OPTIONAL, Ext: true},
+	})
+	fdp.MessageType[2].Field = append(fdp.MessageType[2].Field, &descriptorpb.FieldDescriptorProto{Name: proto.String("id"), Number: proto.Int32(1), Type: descriptorpb.FieldDescriptorProto_TYPE_INT32.Enum(), Label: descriptorpb.FieldDescriptorProto_LABEL_OPTIONAL.Enum(), JsonName: proto.String("id")})
+	fd, err := protodesc.NewFile(fdp, protoregistry.GlobalFiles)
+	if err != nil {
+		panic(err)
+	}
+	types := &protoregistry.Types{}
+	xmd := fd.Messages().ByName("X")
+	types.RegisterMessage(dynamicpb.NewMessageType(xmd))
+	types.RegisterMessage(dynamicpb.NewMessageType(fd.Messages().ByName("Sub")))
+	var xts []protoreflect.ExtensionType
+	for i := 0; i < fd.Extensions().Len(); i++ {
+		xt := dynamicpb.NewExtensionType(fd.Extensions().Get(i))
+		types.RegisterExtension(xt)
+		xts = append(xts, xt)
+	}
+	type setter struct {
+		name string
+		f    func(m protoreflect.Message)
+	}
+	sub := func() protoreflect.Value {
+		s := dynamicpb.NewMessage(fd.Messages().ByName("Sub"))
+		s.Set(s.Descriptor().Fields().ByName("a"), protoreflect.ValueOfInt32(4))
+		return protoreflect.ValueOfMessage(s)
+	}
+	setters := []setter{
+		{"id=7", func(m protoreflect.Message) { m.Set(xmd.Fields().ByName("id"), protoreflect.ValueOfInt32(7)) }},
+		{"ext int32=-1", func(m protoreflect.Message) { m.Set(xts[0].TypeDescriptor(), protoreflect.ValueOfInt32(-1)) }},
+		{"ext repeated string+=\"é\"", func(m protoreflect.Message) {
+			m.Mutable(xts[1].TypeDescriptor()).List().Append(protoreflect.ValueOfString("é"))
+		}},
+		{"ext repeated string+=\"\"", func(m protoreflect.Message) {
+			m.Mutable(xts[1].TypeDescriptor()).List().Append(protoreflect.ValueOfString(""))
+		}},
+		{"ext message{a:4}", func(m protoreflect.Message) { m.Set(xts[2].TypeDescriptor(), sub()) }},
+	}
+	n := univ.TupleCount(len(setters), 2)
+	univ.ForTuples(c, len(setters), 2, func(idx []int) {
+		var names []string
+		payload := dynamicpb.NewMessage(xmd)
+		for _, i := range idx {
+			setters[i].f(payload)
+			names = append(names, setters[i].name)
+		}
+		name := strings.Join(names, " ; ")
+		c.Eval(1)
+		c.Guard(func() string { return "any with private resolver case=" + name }, func() {
+			pb, err := proto.MarshalOptions{Deterministic: true}.Marshal(payload)
+			if err != nil {
+				panic(err)
+			}
+			a := &anypb.Any{TypeUrl: "type.googleapis.com/" + string(xmd.FullName()), Value: pb}
+			for _, o := range optionSets {
+				o.Resolver = types
+				tb, err := o.Marshal(a)
+				if err != nil {
+					c.Violation(fmt.Sprintf("prototext.Marshal of an Any resolvable through MarshalOptions.Resolver fails %s case=[%s]", oname(o), name), err.Error())
+					continue
+				}
+				var back anypb.Any
+				if err := (prototext.UnmarshalOptions{Resolver: types}).Unmarshal(tb, &back); err != nil {
+					c.Violation(fmt.Sprintf("prototext.Unmarshal rejects its own Any output %s case=[%s]", oname(o), name), map[string]any{"err": err.Error(), "text": string(tb)})
+					continue
+				}
+				got := dynamicpb.NewMessage(xmd)
+				if err := (proto.UnmarshalOptions{Resolver: types}).Unmarshal(back.Value, got); err != nil || back.TypeUrl != a.TypeUrl || !proto.Equal(got, payload) {
+					c.Violation(fmt.Sprintf("Any payload changes in the text round trip with a caller-supplied Resolver %s case=[%s]", oname(o), name), map[string]any{"text": string(tb), "value_in": fmt.Sprintf("%x", pb), "value_out": fmt.Sprintf("%x", back.Value)})
+				}
+			}
+		})
+	})
+	c.DistinctN(int64(n))
+	c.Bounds["any_private_resolver_payloads"] = n
 }
